@@ -15,6 +15,12 @@ claim("C17",
       STATIC_NOTE + "Go memory model (common-lock criterion). Not decided: liveness when the user does not drain the outgoing channel (excluded by the property); panics inside round code (decided under C05).",
       "DESIGN.md §4 C17")
 
+claim("C19",
+      "encoding-shape analysis: SSA rule on hash.WriteAny (length-prefix-before-variable-write on every path, rejecting default), AST/type rule classifying every WriteTo into fixed / length-prefixed / variable segments, constant-domain uniqueness, static argument-type rule over all 193 hash call arguments, commit/decommit sibling rules",
+      "Decides for all inputs the structural causes of transcript ambiguity: item framing in WriteAny, injective layout of every typed writer (at most one undelimited variable segment, none in loops, counted lists), distinct constant domains, no argument type that the run-time type switch would drop, and the commit/decommit mechanism (clone, order, validation, full comparison). This is the right level because injectivity of a framing is a property of the encoder's shape, not of sampled inputs.",
+      STATIC_NOTE + "Width table for leaf encodings and two invariant-promoted widths (RID, Paillier modulus) whose supporting checks run in the same check. Not decided: collision resistance of BLAKE3.",
+      "DESIGN.md §4 C19")
+
 for p, why in {
     "C01": "not built yet", "C02": "not built yet", "C03": "not built yet", "C04": "not built yet", "C05": "not built yet",
     "C06": "not built yet", "C07": "not built yet", "C08": "not built yet", "C09": "not built yet", "C10": "not built yet",
